@@ -109,9 +109,15 @@ def _main(pid, args, seed, t0):
         _repo_root = os.path.realpath(os.environ.get("MELLON_REPO", "/repo"))
 
         def _guarded_run_case(ctx_, res_, p_):
+            n_before = len(res_.findings)
             try:
                 return _orig_run_case(ctx_, res_, p_)
             except Exception as exc:  # noqa
+                if len(res_.findings) > n_before:
+                    # the case has already produced a finding (e.g. the implementation's state has the wrong shape) and a
+                    # later oracle of the same case tripped over it: the finding stands, the rest of the case is skipped
+                    res_.count("case_aborted_after_finding")
+                    return None
                 frames = traceback.extract_tb(exc.__traceback__)
                 inner = [f for f in frames if os.path.realpath(f.filename).startswith(_repo_root + os.sep)]
                 last_harness = max((i for i, f in enumerate(frames) if os.sep + "harness" + os.sep in f.filename), default=-1)
